@@ -15,34 +15,37 @@ import (
 // well-formed by construction; switches only narrow the language for checks
 // whose oracle needs a precondition (each use is counted in evidence).
 type Cfg struct {
-	MaxFiles          int  // 1..n files
-	MaxDefs           int  // per kind and file (default 4)
-	Annotations       bool // annotations on every node kind
-	NastyLits         bool // literals with quotes, backslash pairs, punctuation
-	RawCtl            bool // literals may contain raw newlines / tabs (not Go-safe)
-	CppStuff          bool // cpp_include, cpp_type
-	Consts            bool
-	Defaults          bool
-	Services          bool
-	NegIDs            bool
-	ExpDoubles        bool // exponent spellings of doubles (known finding S1 when broken)
-	HexIDs            bool // field ids spelled 0x.. (known finding S2 when broken)
-	IntSpell          bool // hex / octal / +signed spellings of integer constants and enum values
-	GoSafe            bool // only shapes the Go backend documents as supported
-	SameBase          bool // two included files may share a base name (in different directories)
-	EnumViaTypedef    bool // constants may name enum values through a typedef of the enum
-	EnumViaTypedefFar bool // ... also when the typedef chain crosses more file boundaries than the binding can express (known finding)
-	EmptyEnums        bool
-	Comments          bool // leading comments recorded on definitions
-	SharedNS          bool // several files may share one go namespace
-	NameStress        bool // names that stress naming styles and collision renaming
-	NoNamespace       bool // some files have no go namespace
-	SelfRef           bool // structs may refer to themselves through optional fields
-	MapStructKey      bool // struct-like map keys
-	UnionDefaults     bool
-	DistinctThrows    bool // a throws list names each exception type at most once
-	NoBinKeyConstRef  bool // a binary map key is never written as a reference to a binary constant (known finding)
-	NoZeroThrowsID    bool // no throws entry has id 0 (it would share the id of `success` in the result struct)
+	MaxFiles               int  // 1..n files
+	MaxDefs                int  // per kind and file (default 4)
+	Annotations            bool // annotations on every node kind
+	NastyLits              bool // literals with quotes, backslash pairs, punctuation
+	RawCtl                 bool // literals may contain raw newlines / tabs (not Go-safe)
+	CppStuff               bool // cpp_include, cpp_type
+	Consts                 bool
+	Defaults               bool
+	Services               bool
+	NegIDs                 bool
+	ExpDoubles             bool // exponent spellings of doubles (known finding S1 when broken)
+	HexIDs                 bool // field ids spelled 0x.. (known finding S2 when broken)
+	IntSpell               bool // hex / octal / +signed spellings of integer constants and enum values
+	GoSafe                 bool // only shapes the Go backend documents as supported
+	SameBase               bool // two included files may share a base name (in different directories)
+	EnumViaTypedef         bool // constants may name enum values through a typedef of the enum
+	EnumViaTypedefFar      bool // ... also when the typedef chain crosses more file boundaries than the binding can express (known finding)
+	EmptyEnums             bool
+	Comments               bool // leading comments recorded on definitions
+	SharedNS               bool // several files may share one go namespace
+	NameStress             bool // names that stress naming styles and collision renaming
+	NoNamespace            bool // some files have no go namespace
+	SelfRef                bool // structs may refer to themselves through optional fields
+	MapStructKey           bool // struct-like map keys
+	UnionDefaults          bool
+	DistinctThrows         bool // a throws list names each exception type at most once
+	NoBinKeyConstRef       bool // a binary map key is never written as a reference to a binary constant (known finding)
+	InheritedCaseCollision bool // with NameStress: a derived service may declare `call` when its base has `Call` (known finding)
+	HelperNames            bool // with NameStress: also names equal to unreserved generated helpers (known finding names-of-generated-helpers)
+	CompatNames            bool // with NameStress: also names that need the compatible_names option (NewX, XArgs, XResult)
+	NoZeroThrowsID         bool // no throws entry has id 0 (it would share the id of `success` in the result struct)
 }
 
 // GoSafe is the configuration for programs that are handed to the Go backend:
@@ -72,6 +75,7 @@ type gen struct {
 	// candidates visible from the current file
 	depth      int
 	noConstRef bool
+	globals    map[string]bool // exact global names used so far (whole program: files may share a Go package)
 }
 
 var stems = []string{"user", "Item", "order_info", "HTTPReq", "url", "id", "Data", "node", "Val", "my_type", "Resp", "req", "Base", "info_v", "Kind", "state", "X", "a_b_c", "Config", "elem"}
@@ -87,7 +91,68 @@ func (g *gen) name(prefix string) string {
 	return fmt.Sprintf("%s%s%d", prefix, st, g.n)
 }
 
-func (g *gen) typeName() string  { return g.name("T") }
+// Name shapes that stress the naming styles and the collision renaming of the
+// Go backend (NameStress): different IDL names that convert to the same Go
+// identifier, initialisms, Go keywords and predeclared names, names of
+// generated methods and helpers.  Exact IDL names stay unique in their scope.
+var (
+	stressGlobals = []string{"foo_bar", "FooBar", "fooBar", "Foo_Bar", "foo", "Foo", "url", "URL", "Url", "http_url", "HttpUrl", "HTTPURL", "id", "ID", "Id",
+		"v1_2", "V12", "Type", "Error", "String", "Client", "Processor", "GetX", "get_x", "DeepEqual", "_foo", "foo_", "foo__bar", "Args", "Result", "T", "t",
+		"Data_", "data", "Int", "New", "new_", "Func", "Var", "Value", "Scan", "Context", "Fmt", "Thrift", "Init", "Main"}
+	stressCompat = []string{"NewFoo", "FooArgs", "FooResult", "NewFooClient", "FooClient", "FooProcessor", "NewFooProcessor", "NewFoo_bar"}
+	stressFields = []string{"type", "func", "range", "select", "default", "go", "chan", "interface", "var", "package", "import", "return", "if", "else", "for",
+		"switch", "case", "break", "continue", "goto", "defer", "fallthrough", "id", "Id", "ID", "url", "Read", "Write", "String", "Error", "GetX", "x", "X",
+		"get_x", "Get_x", "is_set_x", "IsSetX", "foo_bar", "fooBar", "FooBar", "DeepEqual", "_a", "a_", "a__b", "p", "err", "oprot", "iprot", "this", "self",
+		"ctx", "args", "result", "success", "Success", "src", "fieldmask", "len", "int32", "error", "nil", "iota", "append", "New", "init", "main",
+		"Field1DeepEqual", "ReadField1", "writeField1", "BLength", "FastRead", "InitDefault", "IsSet", "unknown", "_unknownFields"}
+	stressFuncs = []string{"Read", "Write", "String", "call", "Call", "process", "Process", "type", "func", "ctx", "err", "error", "Error", "close", "Close",
+		"init", "New", "recv", "send", "sendFoo", "recvFoo", "foo", "Foo", "foo_bar", "fooBar", "GetProcessorFunction", "AddToProcessorMap", "ProcessorMap", "Client_"}
+	stressArgs = []string{"type", "func", "range", "go", "ctx", "p", "err", "args", "result", "seqId", "iprot", "oprot", "handler", "self", "_args", "_result",
+		"retval", "x", "success", "req", "Req", "error", "string_", "len", "nil", "var", "package", "interface", "default"}
+	stressEnumVals = []string{"A", "a", "foo_bar", "FooBar", "String", "Value", "Scan", "type", "nil", "E", "unknown", "Unknown", "MIN", "Max", "x_y", "X_Y", "xY"}
+)
+
+// normKey is the style-independent key of a name: lower case, underscores removed.
+func normKey(s string) string {
+	return strings.ToLower(strings.ReplaceAll(s, "_", ""))
+}
+
+// stressName draws a name from the pool that is not used yet in scope `used`
+// (exact IDL spelling); it falls back to a counter name.
+var helperNames = map[string]bool{"Client_": true, "_unknownFields": true, "BLength": true, "FastRead": true, "_foo": true}
+
+func (g *gen) stressName(pool []string, used map[string]bool, fallbackPrefix string) string {
+	if g.cfg.NameStress && g.p(2, 3, "stressname") {
+		for tries := 0; tries < 4; tries++ {
+			n := rapid.SampledFrom(pool).Draw(g.t, "stress")
+			if helperNames[n] && !g.cfg.HelperNames {
+				continue
+			}
+			if !used[n] && !reserved[n] {
+				used[n] = true
+				return n
+			}
+		}
+	}
+	n := g.name(fallbackPrefix)
+	used[n] = true
+	return n
+}
+
+func (g *gen) globalScope() map[string]bool {
+	if g.globals == nil {
+		g.globals = map[string]bool{}
+	}
+	return g.globals
+}
+
+func (g *gen) typeName() string {
+	pool := stressGlobals
+	if g.cfg.CompatNames {
+		pool = append(append([]string{}, stressGlobals...), stressCompat...)
+	}
+	return g.stressName(pool, g.globalScope(), "T")
+}
 func (g *gen) fieldName() string { return g.name("f") }
 
 func (g *gen) intn(lo, hi int, label string) int { return rapid.IntRange(lo, hi).Draw(g.t, label) }
@@ -318,10 +383,11 @@ func (g *gen) genEnum() {
 		lo = 0
 	}
 	n := g.intn(lo, 5, "nenumvals")
+	usedVals := map[string]bool{}
 	used := map[int64]bool{}
 	next := int64(0)
 	for i := 0; i < n; i++ {
-		ev := &EnumVal{Name: g.name("E"), Annos: g.annos(1)}
+		ev := &EnumVal{Name: g.stressName(stressEnumVals, usedVals, "E"), Annos: g.annos(1)}
 		if g.p(1, 2, "explicit") {
 			var v int64
 			for tries := 0; ; tries++ {
@@ -457,8 +523,16 @@ func (g *gen) genFields(kind string) []*Field {
 	used := map[int32]bool{}
 	last := int32(0)
 	hasDefault := false
+	usedNames := map[string]bool{}
 	for i := 0; i < n; i++ {
-		f := &Field{Name: g.fieldName()}
+		pool := stressFields
+		if kind == "args" || kind == "throws" {
+			pool = stressArgs
+		}
+		if kind == "throws" {
+			usedNames["success"] = true // the result struct already has a field of that name
+		}
+		f := &Field{Name: g.stressName(pool, usedNames, "f")}
 		// id
 		implicit := g.p(1, 5, "implicitid")
 		next := last + 1
@@ -561,7 +635,7 @@ func (g *gen) genStructLike() {
 }
 
 func (g *gen) genConst() {
-	d := &Def{Kind: KConst, Name: g.name("C")}
+	d := &Def{Kind: KConst, Name: g.stressName(stressGlobals, g.globalScope(), "C")}
 	for tries := 0; tries < 5; tries++ {
 		d.Type = g.genType(2, false)
 		d.Value = g.genValue(d.Type, 3)
@@ -871,8 +945,22 @@ func (g *gen) genService() {
 		}
 	}
 	n := g.intn(0, 4, "nfuncs")
+	usedFuncs := map[string]bool{}
+	// a derived service must not redefine a function of its base chain
+	baseKeys := map[string]bool{}
+	for b := d.Extends; b != nil; b = b.Extends {
+		for _, bf := range b.Funcs {
+			usedFuncs[bf.Name] = true
+			baseKeys[normKey(bf.Name)] = true
+		}
+	}
 	for i := 0; i < n; i++ {
-		f := &Func{Name: g.name("m")}
+		f := &Func{Name: g.stressName(stressFuncs, usedFuncs, "m")}
+		if !g.cfg.InheritedCaseCollision && baseKeys[normKey(f.Name)] {
+			// e.g. `call` in a service whose base has `Call`: both become the Go method Call (known finding)
+			f.Name = g.name("m")
+			usedFuncs[f.Name] = true
+		}
 		if g.p(1, 5, "oneway") {
 			f.Oneway = true
 		} else if g.p(2, 3, "nonvoid") {
